@@ -290,6 +290,12 @@ impl Property for DrcpProp {
         // ---- double negation
         for (_, atoms) in &case.definitions {
             for a in atoms {
+                // the complement of [x >= i64::MIN] / [x <= i64::MAX] is not an atomic constraint over 64-bit
+                // values (the library wraps around or, with overflow checks, panics): outside of the quantifier
+                if matches!(a, AtomSpec::Int { cmp, value, .. } if (*cmp % 4 == 0 && *value == i64::MIN) || (*cmp % 4 == 1 && *value == i64::MAX)) {
+                    out.counters.push(("negation_not_representable_skipped".into(), 1));
+                    continue;
+                }
                 let x = to_atomic(a);
                 let y = !(!x.clone());
                 if x != y {
